@@ -353,7 +353,7 @@ def measure_funcs(wname, nthreads):
                 def local(frame, event, arg):
                     if event == "line":
                         s.count[0] += 1
-                        names.append(frame.f_code.co_name)
+                        names.append(frame.f_code.co_name + "@" + os.path.basename(frame.f_code.co_filename))
                     return local
 
                 def glob(frame, event, arg):
@@ -369,8 +369,8 @@ def measure_funcs(wname, nthreads):
     return out
 
 
-GATE_FUNCS = ("resolve_forward_refs",)                              # where first calls are serialised
-GUARDED_FUNCS = ("resolve_forward_refs", "_resolve_forward_refs")     # what the gate protects
+GATE_FUNCS = ("resolve_forward_refs@base.py",)                      # where first calls are serialised (BaseParser.resolve_forward_refs)
+GUARDED_FUNCS = ("resolve_forward_refs@base.py", "_resolve_forward_refs@base.py", "_resolve_forward_refs@func.py", "resolve_forward_refs@cls.py")     # what the gate protects
 
 
 def campaign(ctx):
